@@ -318,7 +318,7 @@ func runConnInner(args []string) string {
 		rd := &connReader{scriptedReader: scriptedReader{chunks: append([][]byte(nil), cur.chunks...), endErr: io.EOF, errWithLast: cur.ewl}}
 		switch cur.sub {
 		case 'R':
-			rd.endErr = errRead
+			rd.endErr = readErrFor(cur.chunks)
 		case 'K':
 			rd.endErr = context.Canceled
 		case 'C':
